@@ -156,6 +156,18 @@ def check_graph(rec, r, wn, sim, gid, g, edges, pos_of):
                         results[name] = ('KeyError', str(exc))
                     rec.event('metric.compared')
                     rec.call('similarity.' + name)
+                    if not sr and name in ('path', 'wup', 'lch'):
+                        # documented default: simulate_root=False
+                        try:
+                            dv = ('ok', f(*args, depth_arg) if name == 'lch' else f(*args))
+                        except wn.Error as exc:
+                            dv = ('wn.Error', str(exc))
+                        except KeyError as exc:
+                            dv = ('KeyError', str(exc))
+                        rec.event('default.checked')
+                        if dv != results[name]:
+                            rec.violation('default-simulate_root', f'{what}: {name}(n{a}, n{b}) without simulate_root gives {dv}, with '
+                                          f'simulate_root=False {results[name]}')
                 p = g.shortest_len(a, b, sr)
                 lcs = g.lowest_common(a, b, sr)
                 lcs_nosr = g.lowest_common(a, b, False)
